@@ -49,19 +49,19 @@ CHECKS = {
 
 E2_CHECKS = {
  "C05": ("model_checking", "explicit-state search (stateright BFS) whose transition function re-executes the real connection over a scripted transport; all partitions of the stream via state merging",
-         "Every partition of every short inbound stream (all sequences <= 3/4 over 6-8 frame kinds, both modes, both implementations) into transport reads is covered by merging states on (receive buffer, spare capacity, stream position, budgets); injected transient read errors (4 kinds, budget 1-2), EOF at every point and a 30 s clock step at any suspension (tokio); sessions longer than the 6120-byte buffer; frames whose parser wants more or less than they announce (short SMALL, MSO without NUL, over-running MCI) sharing reads with their successors. On every transition the results so far must equal the reference read loop's (one result per frame, in order, errors do not disturb successors, nothing lost after a transient error, Disconnected after EOF).",
+         "Every partition of every short inbound stream (all sequences <= 3/4 over 6-8 frame kinds, both modes, both implementations) into transport reads is covered by merging states on (receive buffer, spare capacity, stream position, budgets); injected transient read errors (4 kinds, budget 1-2), EOF at every point and a 30 s clock step at any suspension (tokio); sessions longer than the 6120-byte buffer, including a repeating pattern of every short frame kind shifted through every alignment with the last byte of the allocation and delivered as much at a time as the connection takes; frames whose parser wants more or less than they announce (short SMALL, MSO without NUL, over-running MCI) sharing reads with their successors. On every transition the results so far must equal the reference read loop's (one result per frame, in order, errors do not disturb successors, nothing lost after a transient error, Disconnected after EOF).",
          "Per-frame content expectation = the real codec on that frame alone. Long sessions use boundary-relative chunk sizes, not every k.", "DESIGN.md §4 C05", "E2"),
  "C06": ("model_checking", "explicit-state search over all transport acceptance patterns of the real write path",
-         "For packet sequences over {4, 8, 12, 68, 228-byte frames}, every acceptance count at every transport write call, 'not ready' (Pending for tokio, Interrupted for blocking) and 30 s clock steps while a tokio write is suspended are explored on both implementations and modes; on every transition the accumulated bytes are a prefix of the concatenated frames and complete when write() returns Ok.",
+         "For packet sequences over {4, 8, 12, 68, 228-byte frames}, every acceptance count at every transport write call, 'not ready' (Pending for tokio, Interrupted for blocking; once, twice and 300 times in a row) and 30 s clock steps while a tokio write is suspended are explored on both implementations and modes; on every transition the accumulated bytes are a prefix of the concatenated frames and complete when write() returns Ok.",
          "Acceptance counts for frames > 12 bytes are {1,2,3,4,n/2,n-1,n}.", "DESIGN.md §4 C06", "E2"),
  "C07": ("model_checking", "explicit-state search over received-packet histories, segmentations and reply-side acceptance patterns",
-         "Every single TINY (sub-type byte x request id), every kind's frame between two keep-alives, all sequences <= 3/4 over 5 frame kinds with every partition, the reply split/delayed on the write side, and sequences over {keep-alive, VER 9, VER 8, SMALL} with the version gate on: outbound bytes are exactly one pong per keep-alive handed over, accepted before the hand-over, and nothing for anything else.",
+         "Every single TINY (sub-type byte x request id), every kind's frame between two keep-alives, all sequences <= 3/4 over 5 frame kinds with every partition, the reply split/delayed on the write side, and sequences over {keep-alive, VER 9, VER 8, SMALL} with the version gate on, and the caller's own reads and writes dropped around a keep-alive: outbound bytes are exactly one pong per keep-alive handed over, accepted before the hand-over, and nothing for anything else.",
          "quick tier samples request ids for non-zero sub-types (all 256 for sub-type 0); thorough covers all.", "DESIGN.md §4 C07", "E2"),
  "C09": ("model_checking", "explicit-state search over version values x gate setting x position x implementation",
-         "All 256 InSim version values x verify on/off x {blocking, tokio} x 4 positions x 2 modes, whole and byte-by-byte delivery, pairs of VER packets (the gate applies to every one, not the first), the gate as set through the public builder (tcp and udp), plus every other kind with the gate on: delivered iff (gate off or version 9), otherwise IncompatibleVersion(v); later packets unaffected.",
+         "All 256 InSim version values x verify on/off x {blocking, tokio} x 4 positions x 2 modes, whole and byte-by-byte delivery, pairs of VER packets (the gate applies to every one, not the first), the gate as set through the public builder (tcp and udp), a handshake (default and all-fields-changed ISI) in front of the reads, plus every other kind with the gate on: delivered iff (gate off or version 9), otherwise IncompatibleVersion(v); later packets unaffected.",
          "none", "DESIGN.md §4 C09", "E2"),
  "C19": ("model_checking", "explicit-state search over readiness scripts and cancellation points of the real async read future (polled by hand under a paused clock)",
-         "For sequences over {keep-alive, SMALL, MSO}: at every suspension point the environment may deliver any k bytes / stay pending / accept any k reply bytes, and the caller may drop the read() future and start a new one (budget 2/4), or drop it and call write() instead; 30 s clock steps below the 90 s timeout; the same drops anywhere in 9-16 kB sessions (buffer nearly full, reclaim): the packets returned by all completed reads equal the uninterrupted session's and the outbound bytes are always a whole number of pongs plus a prefix of the one in progress.",
+         "For sequences over {keep-alive, SMALL, MSO}: at every suspension point the environment may deliver any k bytes / stay pending / accept any k reply bytes, and the caller may drop the read() future and start a new one (budget 2/4), or drop it and call write() instead (and drop that write too); 30 s clock steps below the 90 s timeout; the same drops anywhere in 9-16 kB sessions (buffer nearly full, reclaim): the packets returned by all completed reads equal the uninterrupted session's and the outbound bytes are always a whole number of pongs plus a prefix of the one in progress.",
          "Cancellation of write() is outside the property.", "DESIGN.md §4 C19", "E2"),
 }
 CHECKS.update(E2_CHECKS)
@@ -75,7 +75,7 @@ CHECKS["C18"] = ("model_checking", "explicit-state search over all reachable sta
          "All builder states reachable with a 33-setter (quick) / 43-setter (thorough) alphabet - each flag helper on/off, wholesale flag replacement, prefix / interval / name / password / request id present or absent, tcp, udp with and without local address, compressed, uncompressed, relay - are explored; on every transition isi() must not panic and must equal the reference builder's ISI (documented defaults, later calls override earlier ones). 72 connects (tcp / udp without / with local address x mode x blocking/tokio x 6 ISI configurations) check that the peer receives exactly the encoded ISI and nothing else.",
          "Setter arguments are limited to 2-3 representatives each.", "DESIGN.md §4 C18", "E2")
 CHECKS["C20"] = ("model_checking", "exhaustive enumeration of message schedules (partitions, interleavings, read sizes) executed on real loopback WebSocket connections",
-         "Adaptor level: every partition of an 8/12-byte stream into binary messages x 8 caller read sizes, text / ping / empty-binary messages inserted at every boundary, messages larger than the 1020-byte adaptor buffer: bytes read = concatenated binary payloads, close = 0-byte read. Connection level: frame sequences x message partitions give exactly the TCP reference results and Disconnected on close; every kind's packet (both modes, up to the largest counted frames) and sequences of writes leave as exactly one binary message per packet holding its frame.",
+         "Adaptor level: every partition of an 8/12-byte stream into binary messages x 8 caller read sizes, text / ping / empty-binary messages inserted at every boundary, 300 non-binary messages in a row, messages larger than the 1020-byte adaptor buffer: bytes read = concatenated binary payloads, close = 0-byte read. Connection level: frame sequences x message partitions give exactly the TCP reference results and Disconnected on close; every kind's packet (both modes, up to the largest counted frames) and sequences of writes leave as exactly one binary message per packet holding its frame.",
          "Loopback TCP with a tungstenite server inside the harness; 2 s watchdog on every await.", "DESIGN.md §4 C20", "E2")
 
 NOT_BUILT = {}
